@@ -20,7 +20,9 @@ package main
 // written for a reply with / without body / trailers, with which endStream argument, each followed by processError),
 // upstreamRequest.receiveHeaders / receiveData / receiveTrailers (the entry guard `processDone() || setupRetry`) and
 // downStream.onUpstreamHeaders / onUpstreamData / onUpstreamTrailers (they end in the append function of their part
-// and pass endStream on unchanged). The reply shape of MOSN's own replies (sendHijackReply clears data and trailers)
+// and pass endStream on unchanged); endStream (unconditional cleanStream) and cleanStream itself (the compare-and-swap on
+// downstreamCleaned first, then the steps of its body in order: upstream reset unless done, cleanUp, metrics — the active
+// gauges —, tracing, access log, filters, delete — the active-stream list —, giveStream). The reply shape of MOSN's own replies (sendHijackReply clears data and trailers)
 // is the existing Gen module ProxyReply.
 
 import (
@@ -516,6 +518,88 @@ func c03wGenProxyReplyWrite() (string, error) {
 		}
 	}
 
+	// --- endStream: `[no-reuse bookkeeping]; s.cleanStream()` — the clean-up is unconditional
+	es := findFunc(f, "downStream", "endStream")
+	if es == nil {
+		return "", fmt.Errorf("endStream not found")
+	}
+	endCleans := false
+	for _, st := range es.Body.List {
+		switch txt := src(st); txt {
+		case "if s.responseSender != nil && !s.downstreamRecvDone { atomic.StoreUint32(&s.reuseBuffer, 0) }":
+		case "s.cleanStream()":
+			endCleans = true
+		default:
+			return "", fmt.Errorf("endStream: statement outside the vocabulary: %q", txt)
+		}
+	}
+
+	// --- cleanStream: the compare-and-swap first, then the steps of the body in order
+	cs := findFunc(f, "downStream", "cleanStream")
+	if cs == nil {
+		return "", fmt.Errorf("cleanStream not found")
+	}
+	cleanOnce := false
+	var cleanSteps []string
+	for i, st := range cs.Body.List {
+		txt := src(st)
+		if i == 0 && txt == "if !atomic.CompareAndSwapUint32(&s.downstreamCleaned, 0, 1) { return }" {
+			cleanOnce = true
+			continue
+		}
+		if ds, ok := st.(*ast.DeferStmt); ok && strings.Contains(src(ds.Call), "recover()") {
+			continue // the panic guard of the body
+		}
+		if is, ok := st.(*ast.IfStmt); ok && is.Init == nil && is.Else == nil &&
+			src(is.Cond) == "s.upstreamRequest != nil && !s.upstreamProcessDone.Load() && !s.oneway" {
+			var b []string
+			for _, x := range is.Body.List {
+				if !c03wIsLog(x) {
+					b = append(b, src(x))
+				}
+			}
+			if strings.Join(b, " ; ") != "s.upstreamProcessDone.Store(true) ; s.upstreamRequest.resetStream()" {
+				return "", fmt.Errorf("cleanStream: unexpected upstream reset branch: %v", b)
+			}
+			cleanSteps = append(cleanSteps, ".resetUpstreamUnlessDone")
+			continue
+		}
+		step, ok := map[string]string{
+			"s.requestInfo.SetRequestFinishedDuration(time.Now())": "",
+			"s.cleanUp()":                   ".cleanUp",
+			"s.requestMetrics()":            ".metrics",
+			"s.finishTracing()":             ".tracing",
+			"s.writeLog()":                  ".accessLog",
+			"s.streamFilterChain.destroy()": ".destroyFilters",
+			"s.delete()":                    ".delete",
+			"s.giveStream()":                ".giveStream",
+		}[txt]
+		if !ok {
+			return "", fmt.Errorf("cleanStream: statement outside the vocabulary: %q", txt)
+		}
+		if step != "" {
+			cleanSteps = append(cleanSteps, step)
+		}
+	}
+	// requestMetrics counts the active gauges down, delete takes the stream off the proxy's active list
+	rm := findFunc(f, "downStream", "requestMetrics")
+	dl := findFunc(f, "downStream", "delete")
+	if rm == nil || dl == nil {
+		return "", fmt.Errorf("requestMetrics / delete not found")
+	}
+	decs := 0
+	for _, st := range rm.Body.List { // top level: unconditional
+		if txt := src(st); txt == "s.proxy.stats.DownstreamRequestActive.Dec(1)" || txt == "s.proxy.listenerStats.DownstreamRequestActive.Dec(1)" {
+			decs++
+		}
+	}
+	if strings.Count(src(rm.Body), "DownstreamRequestActive") != 2 {
+		return "", fmt.Errorf("requestMetrics: unexpected use of DownstreamRequestActive")
+	}
+	if src(dl.Body) != "{ if s.proxy != nil { s.proxy.deleteActiveStream(s) } }" {
+		return "", fmt.Errorf("delete: unexpected body %s", src(dl.Body))
+	}
+
 	s := header("ProxyReplyWrite", "pkg/proxy/downstream.go (downStream.appendHeaders, appendData, appendTrailers, receive, onUpstreamHeaders/Data/Trailers)",
 		"pkg/proxy/upstream.go (upstreamRequest.receiveHeaders/Data/Trailers)")
 	s += "set_option linter.unusedVariables false\n"
@@ -548,6 +632,16 @@ abbrev Prog := List (Cond × Act)
 	s += "def trailersEos (h d t : Bool) : Bool := " + cases["UpRecvTrailer"].eos + "\n"
 	s += "/-- upstreamRequest.receiveHeaders / receiveData / receiveTrailers start with `if r.downStream.processDone() || r.setupRetry { return }` -/\n"
 	s += fmt.Sprintf("def headersGuarded : Bool := %v\ndef dataGuarded : Bool := %v\ndef trailersGuarded : Bool := %v\n", guards["receiveHeaders"], guards["receiveData"], guards["receiveTrailers"])
+	s += `/-- the steps of the body of downStream.cleanStream (after its compare-and-swap), closed vocabulary -/
+inductive CleanStep where
+  | resetUpstreamUnlessDone   -- if s.upstreamRequest != nil && !s.upstreamProcessDone.Load() && !s.oneway { s.upstreamProcessDone.Store(true); s.upstreamRequest.resetStream() }
+  | cleanUp | metrics | tracing | accessLog | destroyFilters | delete | giveStream
+  deriving DecidableEq, Repr
+`
+	s += fmt.Sprintf("/-- cleanStream starts with `if !atomic.CompareAndSwapUint32(&s.downstreamCleaned, 0, 1) { return }` -/\ndef cleanOnce : Bool := %v\n", cleanOnce)
+	s += "/-- the body of cleanStream in program order -/\ndef cleanSteps : List CleanStep := [" + strings.Join(cleanSteps, ", ") + "]\n"
+	s += fmt.Sprintf("/-- requestMetrics counts DownstreamRequestActive (proxy and listener) down unconditionally -/\ndef metricsCountDown : Bool := %v\n", decs == 2)
+	s += fmt.Sprintf("/-- endStream calls cleanStream unconditionally -/\ndef endStreamCleans : Bool := %v\n", endCleans)
 	s += footer("ProxyReplyWrite")
 	return s, nil
 }
